@@ -45,6 +45,10 @@ def gen_graph(rng, k, kind):
     if kind == "chain":
         for a, b in zip(order, order[1:]):
             edges.add((b, a))
+    elif kind == "fan":
+        # every other library depends on one library
+        for x in order[1:]:
+            edges.add((x, order[0]))
     elif kind == "dag":
         for i in range(k):
             for j in range(i):
@@ -147,20 +151,22 @@ def _topo(k, edges):
     return out
 
 
-def real_headers(rng, names, edges, funcs_only, force_hidden=False):
+def real_headers(rng, names, edges, funcs_only, force_hidden=False, force_shared=False):
     funcs_only, enum_only, consts_only = (tuple(funcs_only) + (set(),))[:3] if isinstance(funcs_only, tuple) else (funcs_only, set(), set())
     """One header per library.  Layout: an independent base class first, then the includes of every
     dependency, then the classes/typedefs that realise the edges -- this supports arbitrary graphs, cycles included.
     In acyclic graphs a class may also derive from (or name) a *derived* class of the dependency, so that
     inheritance chains span three and more libraries."""
     k = len(names)
-    how = {e: ("derive" if force_hidden else rng.choice(["derive", "derive", "typedef", "both"])) for e in sorted(edges)}
+    how = {e: ("derive" if force_hidden else ("typedef" if force_shared else rng.choice(["derive", "derive", "typedef", "both"]))) for e in sorted(edges)}
     order = _topo(k, edges)
     acyclic = order is not None
     classes = {u: ["%s_K0" % names[u].capitalize()] for u in range(k)}
     hidden = {u: [] for u in range(k)}       # classes without published members, which other libraries may derive from as well
     pub_lib = {"%s_K0" % names[u].capitalize(): u for u in range(k)}   # class name -> library of its nearest published ancestor-or-self
     intent = set()                           # (u, v): library u has a class deriving from / a typedef of a published class of library v
+    shared_td = {}                           # v -> (typedef name, class) first declared for a class of library v
+    shared_intent = set()                    # the (u, v) that exist only through a typedef another library declares identically
     files = {}
     for u in (order if acyclic else range(k)):
         U = names[u].capitalize()
@@ -203,9 +209,20 @@ def real_headers(rng, names, edges, funcs_only, force_hidden=False):
                     pub_lib["%s_D%d" % (U, n)] = u
                     if pub_lib[base] != u:
                         intent.add((u, pub_lib[base]))
-                if h in ("typedef", "both"):
-                    out.append("typedef %s %s_T%d;" % (rng.choice(classes[v]) if acyclic else classes[v][0], U, n))
+                if h in ("typedef", "both") and acyclic and v in shared_td and (force_shared or rng.chance(1, 2)):
+                    # the very typedef another library has already declared for a class of v (same name, same class): the two
+                    # records are one type once the databases are merged
+                    tname, target, first = shared_td[v]
+                    out.append("typedef %s %s;" % (target, tname))
+                    used.append(tname)
                     intent.add((u, v))
+                    shared_intent.add((u, v))
+                    shared_intent.add((first, v))      # whichever of the two owns the merged record, the other one loses it
+                elif h in ("typedef", "both"):
+                    target = rng.choice(classes[v]) if acyclic else classes[v][0]
+                    out.append("typedef %s %s_T%d;" % (target, U, n))
+                    intent.add((u, v))
+                    shared_td.setdefault(v, ("%s_T%d" % (U, n), target, u))
                     if rng.chance(1, 2):
                         # a second level, and a use in a published signature: that is what makes interrogate record the
                         # typedef, and the generated library code then adds it to the module as a name of the other library's class
@@ -217,8 +234,9 @@ def real_headers(rng, names, edges, funcs_only, force_hidden=False):
             out += ["__begin_publish", "int %s_function(int a);" % names[u]] + ["%s *use_%s(int a);" % (t, t.lower()) for t in used] + ["__end_publish"]
         out.append("#endif")
         files["%s/%s.h" % (names[u], names[u])] = "\n".join(out) + "\n"
-    global LAST_INTENT
+    global LAST_INTENT, LAST_SHARED
     LAST_INTENT = intent
+    LAST_SHARED = shared_intent
     return files
 
 
@@ -283,6 +301,7 @@ def synth_dbs(rng, names, edges, funcs_only):
 # ---------------------------------------------------------------- plans
 
 LAST_INTENT = set()
+LAST_SHARED = set()
 KINDS = ["chain", "dag", "dag", "diamond", "forest", "cycle2", "cycleN", "cycle-out", "sccs", "hidden-chain"]
 
 
@@ -335,6 +354,10 @@ def generate(ctx):
                 perms = [rng.shuffle(range(k)) for _ in range(24 if ctx.tier == "thorough" else 8)]
             plans.append({"id": base + ki * per + j, "variant": variant, "k": k, "graph": kind, "gseed": rng.next(), "perms": [list(p) for p in perms], "fault": None,
                           "funcs_only": [], "enum_only": [], "consts_only": [], "mode": "native", "extra": []})
+    # the scenario of the recorded finding "typedef-declared-by-two-libraries", in every batch whatever the seed
+    rng = run_rng(ctx.seed, NAME + "/shared-typedef", 0)
+    plans.append({"id": len(plans), "variant": "real", "k": 3, "graph": "fan", "gseed": rng.next(), "perms": [list(p) for p in itertools.permutations(range(3))],
+                  "fault": None, "funcs_only": [], "enum_only": [], "consts_only": [], "mode": "native", "extra": [], "force_shared": True})
     return plans
 
 
@@ -461,7 +484,7 @@ def execute(plan):
         for rank, u in enumerate(reversed(order)):
             names[u] = srt[rank]
     if plan["variant"] == "real":
-        files = real_headers(rng, names, edges, funcs_only, force_hidden=(plan["graph"] == "hidden-chain"))
+        files = real_headers(rng, names, edges, funcs_only, force_hidden=(plan["graph"] == "hidden-chain"), force_shared=bool(plan.get("force_shared")))
         for rel, text in files.items():
             p = os.path.join(root, "src", rel)
             os.makedirs(os.path.dirname(p), exist_ok=True)
@@ -520,6 +543,13 @@ def execute(plan):
             # record would make it blind, so it is checked here
             for (a, b) in sorted(LAST_INTENT):
                 if names[a] in libs and names[b] in libs and (names[a], names[b]) not in medges:
+                    if (a, b) in LAST_SHARED:
+                        # two libraries declare the same typedef: merged by true name, one record, one owner -- the other
+                        # library's dependency is no longer visible to interrogate_module (known finding, DESIGN.md 13a)
+                        violations.append({"property": "C16", "class": "edge-not-recorded", "key": {"kind": "typedef-declared-by-two-libraries"},
+                                           "msg": "%s and another library both declare the same typedef of a class of %s; after the merge only one of them depends on %s (model edges %s)" %
+                                                  (names[a], names[b], names[b], sorted(medges))})
+                        continue
                     violations.append({"property": "C16", "class": "edge-not-recorded", "key": {"kind": "dependency-missing-from-databases"},
                                        "msg": "the headers make %s depend on %s, but the databases interrogate wrote do not say so (model edges %s)" %
                                               (names[a], names[b], sorted(medges))})
